@@ -204,4 +204,12 @@ def main(argv):
 
 
 if __name__ == "__main__":
-    sys.exit(main(sys.argv[1:]))
+    try:
+        rc = main(sys.argv[1:])
+    except Exception as exc:  # a harness failure is never a verdict about the repository
+        import traceback
+
+        traceback.print_exc()
+        print(f"INCONCLUSIVE: harness failure {exc!r}")
+        rc = EXIT_INCONCLUSIVE
+    sys.exit(rc)
